@@ -35,6 +35,10 @@ func main() {
 		runPlan(c)
 	case "engine":
 		runEngine(c)
+	case "oracle":
+		runOracle(c)
+	case "cli":
+		runCLI(c)
 	default:
 		fmt.Fprintln(os.Stderr, "unknown mode", *mode)
 		os.Exit(2)
